@@ -1187,8 +1187,17 @@ impl Property for C10 {
         };
         // the first indices of every batch are the exhaustive short-history stratum
         let enum_len = if tier == "thorough" { 3 } else { 2 };
-        let enumerated = if index < c10gen::enum_count(enum_len) {
+        let enum_l1 = c10gen::enum_count(enum_len);
+        let enumerated = if index < enum_l1 {
             c10gen::enumerated(index, enum_len)
+        } else if index < enum_l1 * 4 {
+            // the same histories through the real FileWatcher, once per save style
+            let j = index - enum_l1;
+            c10gen::enumerated(j / 3, enum_len).map(|mut scn| {
+                scn.layer = Layer::L2;
+                scn.seed = crate::l2::forced_style_seed(scn.seed, (j % 3) as u64);
+                scn
+            })
         } else {
             None
         };
@@ -1211,6 +1220,9 @@ impl Property for C10 {
         }
         if is_enumerated {
             counters.insert("enumerated_short_histories".to_owned(), 1);
+            if scn.layer == Layer::L2 {
+                counters.insert("enumerated_short_histories_l2".to_owned(), 1);
+            }
         }
         counters.insert("passes".to_owned(), stats.passes);
         counters.insert("fresh_run_comparisons".to_owned(), stats.fresh_runs);
@@ -1375,6 +1387,7 @@ impl Property for C10 {
                         "alphabet": crate::c10gen::ENUM_ALPHABET,
                         "histories_up_to_2_ops": crate::c10gen::enum_count(2),
                         "histories_up_to_3_ops": crate::c10gen::enum_count(3),
+                        "layers": "every enumerated history runs once at L1 (WorkerTree notification API) and three times at L2 (real FileWatcher behind the notify stub), once per save style (in place, atomic, delete-and-recreate); quick: up to 2 operations, thorough: up to 3",
                     }
                 })
             }
